@@ -99,8 +99,8 @@ theorem findBrk_exitLen (l : Option Label) (b : Bool) (ctx : List BI) :
       · simp [h, ih]
     | label y bp =>
       simp only [List.map_cons, BI.shape, exitLen, findBrk]
-      by_cases h : (l == some y && b) = true
-      · simp [h]
+      by_cases h : l = some y
+      · cases b <;> simp [h]
       · simp [h, ih]
     | try_ =>
       simp only [List.map_cons, BI.shape, exitLen, findBrk, ih]
